@@ -113,6 +113,24 @@ theorem declareFn_length {f d} : ∀ {bs bs'}, declareFn f d bs = .ok bs' → bs
 
 /-! ## `lenInv`: the stack is balanced -/
 
+theorem cursorDo_length (op : CurOp) (c x : Nat) (bs : List Block) : (cursorDo op c x bs).2.length = bs.length := by
+  unfold cursorDo
+  split
+  · rfl
+  · split
+    · rfl
+    · split
+      · rfl
+      · rename_i bs1 h1
+        have := setVar_length h1
+        split
+        · simpa using this
+        · split
+          · simpa using this
+          · rename_i bs2 h2
+            have := setVar_length h2
+            simp_all
+
 structure LenInv (fuel : Nat) : Prop where
   eval : ∀ e st, (evalS fuel e st).2.blocks.length = st.blocks.length
   args : ∀ es st, (evalArgsS fuel es st).2.blocks.length = st.blocks.length
@@ -259,6 +277,11 @@ theorem lenInv : ∀ fuel, LenInv fuel
       | «while» c body => simp only [stmtS]; exact ih.whl c body st
       | foreach x d vals body => simp only [stmtS]; exact ih.fe x d vals body st
       | inline ss => simp only [stmtS]; exact ih.block ss st
+      | cursor op c x =>
+        simp only [stmtS]
+        have h := cursorDo_length op c x st.blocks
+        generalize cursorDo op c x st.blocks = r at h ⊢
+        rcases r with ⟨_ | e, bs⟩ <;> exact h
       | declT x =>
         simp only [stmtS]
         split
@@ -424,6 +447,29 @@ theorem St.push_ins (s : St) (n : Nat) : (s.ins n).push = s.push.ins (n + 1) := 
 
 theorem St.ins_pop (s : St) (n : Nat) (h : s.blocks ≠ []) : (s.ins (n + 1)).pop = s.pop.ins n := by
   simp [St.pop, St.ins, ins_tail n s.blocks h]
+
+theorem cursorDo_ins (op : CurOp) (c x n : Nat) (bs : List Block) :
+    cursorDo op c x (ins n bs) = ((cursorDo op c x bs).1, ins n (cursorDo op c x bs).2) := by
+  unfold cursorDo
+  rw [getVar_ins]
+  cases getVar c bs with
+  | none => rfl
+  | some s =>
+    simp only []
+    cases curStep op s with
+    | error e => rfl
+    | ok r =>
+      obtain ⟨s', ov⟩ := r
+      simp only [setVar_ins]
+      cases setVar c s' bs with
+      | none => rfl
+      | some bs1 =>
+        simp only [Option.map]
+        cases ov with
+        | none => rfl
+        | some v =>
+          simp only [setVar_ins]
+          cases setVar x v bs1 <;> rfl
 
 structure InsInv (fuel : Nat) : Prop where
   eval : ∀ n e st, evalS fuel e (st.ins n) = ((evalS fuel e st).1, (evalS fuel e st).2.ins n)
@@ -620,6 +666,9 @@ theorem insInv : ∀ fuel, InsInv fuel
       | «while» c body => simp only [stmtS]; exact ih.whl n c body st hne
       | foreach x d vals body => simp only [stmtS]; exact ih.fe n x d vals body st hne
       | inline ss => simp only [stmtS]; exact ih.block n ss st hne
+      | cursor op c x =>
+        simp only [stmtS, St.ins_blocks, cursorDo_ins]
+        rcases cursorDo op c x st.blocks with ⟨_ | e, bs⟩ <;> rfl
       | declT x =>
         simp only [stmtS, St.ins_blocks, getVar_ins, declareVar_ins _ _ n st.blocks hne]
         cases getVar x st.blocks with
@@ -926,6 +975,11 @@ theorem refInv : ∀ fuel, RefInv fuel
         refine ⟨?_, h4, ⟨hk, hs, ht⟩⟩
         simp only [St.pop, h1, h3]
       | inline ss => simp only [stmtI, stmtS]; exact ih.block ss rv st
+      | cursor op c x =>
+        simp only [stmtI, stmtS]
+        rcases cursorDo op c x st.blocks with ⟨_ | e, bs⟩
+        · exact Sim.ok _ _
+        · exact Sim.fail _ _ _
       | declT x =>
         simp only [stmtI, stmtS]
         cases getVar x st.blocks with
@@ -1349,6 +1403,29 @@ theorem declareFn_tail {f d} : ∀ {bs bs'}, declareFn f d bs = .ok bs' → bs'.
       · cases h
       · cases h; rfl
 
+theorem cursorDo_le (op : CurOp) (c x : Nat) (bs : List Block) : StackLE (cursorDo op c x bs).2 bs := by
+  unfold cursorDo
+  cases getVar c bs with
+  | none => exact StackLE.refl _
+  | some s =>
+    simp only []
+    cases curStep op s with
+    | error e => exact StackLE.refl _
+    | ok r =>
+      obtain ⟨s', ov⟩ := r
+      simp only []
+      cases h1 : setVar c s' bs with
+      | none => exact StackLE.refl _
+      | some bs1 =>
+        simp only []
+        cases ov with
+        | none => exact setVar_le h1
+        | some v =>
+          simp only []
+          cases h2 : setVar x v bs1 with
+          | none => exact setVar_le h1
+          | some bs2 => exact (setVar_le h2).trans (setVar_le h1)
+
 structure LeInv (fuel : Nat) : Prop where
   eval : ∀ e st, StackLE (evalS fuel e st).2.blocks st.blocks
   args : ∀ es st, StackLE (evalArgsS fuel es st).2.blocks st.blocks
@@ -1522,6 +1599,11 @@ theorem leInv : ∀ fuel, LeInv fuel
       | «while» c body => simp only [stmtS]; exact (ih.whl c body st).tail
       | foreach x d vals body => simp only [stmtS]; exact (ih.fe x d vals body st).tail
       | inline ss => simp only [stmtS]; exact ih.block ss st
+      | cursor op c x =>
+        simp only [stmtS]
+        have h := (cursorDo_le op c x st.blocks).tail
+        generalize cursorDo op c x st.blocks = r at h ⊢
+        rcases r with ⟨_ | e, bs⟩ <;> exact h
       | declT x =>
         simp only [stmtS]
         cases getVar x st.blocks with
